@@ -443,3 +443,242 @@ theorem coerced_unwraps (t : FType) (v x : V) (at' : FType)
   simp [h1, h2, h3, h4]
 
 end Dmn.ValOps
+
+/-! ## structural equality of types (`==`, used by `instance of` and `type_of`) -/
+
+namespace Dmn.FType
+
+theorem beqEntries_eq {es : List (String × FType)}
+    (ih : ∀ e ∈ es, ∀ b, beq e.2 b = true → e.2 = b) :
+    ∀ fs, beqEntries es fs = true → es = fs := by
+  induction es with
+  | nil =>
+    intro fs h
+    cases fs with
+    | nil => rfl
+    | cons f fs => simp [beqEntries] at h
+  | cons e es ihes =>
+    intro fs h
+    obtain ⟨k, t⟩ := e
+    cases fs with
+    | nil => simp [beqEntries] at h
+    | cons f fs =>
+      obtain ⟨k', u⟩ := f
+      simp only [beqEntries, Bool.and_eq_true, beq_iff_eq] at h
+      obtain ⟨⟨hk, ht⟩, hr⟩ := h
+      have h1 : t = u := ih (k, t) List.mem_cons_self u ht
+      have h2 := ihes (fun e he => ih e (List.mem_cons_of_mem _ he)) fs hr
+      subst hk; subst h1; subst h2; rfl
+
+theorem beqList_eq {ps : List FType} (ih : ∀ p ∈ ps, ∀ b, beq p b = true → p = b) :
+    ∀ qs, beqList ps qs = true → ps = qs := by
+  induction ps with
+  | nil =>
+    intro qs h
+    cases qs with
+    | nil => rfl
+    | cons q qs => simp [beqList] at h
+  | cons p ps ihps =>
+    intro qs h
+    cases qs with
+    | nil => simp [beqList] at h
+    | cons q qs =>
+      simp only [beqList, Bool.and_eq_true] at h
+      have h1 : p = q := ih p List.mem_cons_self q h.1
+      have h2 := ihps (fun e he => ih e (List.mem_cons_of_mem _ he)) qs h.2
+      subst h1; subst h2; rfl
+
+/-- The derived `PartialEq` of `FeelType` as modelled by `beq` decides equality. -/
+theorem beq_eq : ∀ a b : FType, beq a b = true → a = b := by
+  intro a
+  induction a using FType.ind with
+  | list t ih => intro b h; cases b <;> simp [beq] at h; rw [ih _ h]
+  | range t ih => intro b h; cases b <;> simp [beq] at h; rw [ih _ h]
+  | ctx es ih =>
+    intro b h
+    cases b <;> simp [beq] at h
+    rw [beqEntries_eq ih _ h]
+  | fn ps r ihps ihr =>
+    intro b h
+    cases b <;> simp [beq] at h
+    rw [beqList_eq ihps _ h.1, ihr _ h.2]
+  | _ => intro b h; cases b <;> simp [beq] at h <;> rfl
+
+theorem beq_refl : ∀ a : FType, beq a a = true := by
+  intro a
+  induction a using FType.ind with
+  | list t ih => simpa [beq] using ih
+  | range t ih => simpa [beq] using ih
+  | ctx es ih =>
+    simp only [beq]
+    induction es with
+    | nil => simp [beqEntries]
+    | cons e es ihes =>
+      obtain ⟨k, t⟩ := e
+      simp only [beqEntries, Bool.and_eq_true, beq_iff_eq, true_and]
+      exact ⟨ih (k, t) List.mem_cons_self, ihes (fun e he => ih e (List.mem_cons_of_mem _ he))⟩
+  | fn ps r ihps ihr =>
+    simp only [beq, Bool.and_eq_true]
+    refine ⟨?_, ihr⟩
+    induction ps with
+    | nil => simp [beqList]
+    | cons p ps ih =>
+      simp only [beqList, Bool.and_eq_true]
+      exact ⟨ihps p List.mem_cons_self, ih (fun e he => ihps e (List.mem_cons_of_mem _ he))⟩
+  | _ => simp [beq]
+
+theorem beq_iff (a b : FType) : beq a b = true ↔ a = b :=
+  ⟨beq_eq a b, fun h => h ▸ beq_refl a⟩
+
+end Dmn.FType
+
+/-! ## `instance of` against the conformance relation -/
+
+namespace Dmn.TV
+open Dmn.FType
+
+/-- `v instance of T` is never true for a value whose type does not conform to `T`. -/
+theorem instanceOf_sound (v : TV) (t : FType) (wv : WF (typeOf v)) (h : instanceOf v t = true) :
+    conf (typeOf v) t = true := by
+  have key : ∀ u : FType, WF u → (beq t .any || beq u t) = true → conf u t = true := by
+    intro u wu h
+    rcases Bool.or_eq_true _ _ |>.mp h with h | h
+    · rw [beq_eq _ _ h]; exact conf_any _
+    · rw [← beq_eq _ _ h]; exact conf_refl _ wu
+  cases v with
+  | atom k =>
+    have key' : (beq t .any || beq t k) = true → conf k t = true := by
+      intro h
+      rcases Bool.or_eq_true _ _ |>.mp h with h | h
+      · rw [beq_eq _ _ h]; exact conf_any _
+      · rw [beq_eq _ _ h]; exact conf_refl _ wv
+    cases k
+    case null =>
+      simp only [instanceOf] at h
+      rw [beq_eq _ _ h]
+      exact null_conf _
+    all_goals exact key' h
+  | list vs => exact key _ wv h
+  | ctx es => exact key _ wv h
+  | range lo hi => exact key _ wv h
+  | fn ps r => exact key _ wv h
+
+/-- The converse fails: `instance of` compares the types structurally, so a value whose type conforms to `T`
+without being equal to it is not an instance of `T` (`[1] instance of list<Any>` is false), and `null` is an
+instance of `Null` only although `Null` conforms to every type. -/
+theorem instanceOf_not_complete :
+    (conf (typeOf (.list [.atom .number])) (.list .any) = true ∧
+      instanceOf (.list [.atom .number]) (.list .any) = false) ∧
+    (conf (typeOf (.atom .null)) .any = true ∧ instanceOf (.atom .null) .any = false) := by
+  refine ⟨⟨?_, ?_⟩, ?_, ?_⟩
+  · simp only [typeOf, allSame]; rw [if_pos trivial, list_covariant]; exact conf_any _
+  · simp [instanceOf, typeOf, allSame, beq]
+  · exact conf_any _
+  · simp [instanceOf, beq]
+
+/-- A function value is an instance of a function type exactly when the parameter types and the result type are
+the same types, one by one (no contravariance, no covariance: stricter than conformance). -/
+theorem instanceOf_fn (ps qs : List FType) (r s : FType) :
+    instanceOf (.fn ps r) (.fn qs s) = true ↔ ps = qs ∧ r = s := by
+  have : instanceOf (.fn ps r) (.fn qs s) = beq (.fn ps r) (.fn qs s) := by
+    simp [instanceOf, typeOf, beq]
+  rw [this, beq_iff]
+  constructor
+  · intro h; cases h; exact ⟨rfl, rfl⟩
+  · rintro ⟨rfl, rfl⟩; rfl
+
+example : WF (typeOf (.fn [.number, .list .number] .any)) ∧
+    instanceOf (.fn [.number, .list .number] .any) (.fn [.number, .list .number] .any) = true ∧
+    instanceOf (.fn [.number, .list .number] .any) (.fn [.list .number, .number] .any) = false := by
+  refine ⟨by simp [typeOf, WF, WFList], (instanceOf_fn ..).mpr ⟨rfl, rfl⟩, ?_⟩
+  rw [Bool.eq_false_iff]
+  intro h
+  have := (instanceOf_fn ..).mp h
+  simp at this
+
+end Dmn.TV
+
+/-! ## where coercion is applied: every argument by the type of its own parameter -/
+
+namespace Dmn.ValOps
+open Dmn.FType
+
+variable {V : Type} (o : ValOps V)
+
+theorem bindLoop_eq_zip : ∀ (ps : List (String × FType)) (args : List V), ps.length ≤ args.length →
+    bindLoop o ps args = some (List.zipWith (fun p a => (p.1, o.coerced p.2 a)) ps args)
+  | [], _, _ => by simp [bindLoop]
+  | _ :: _, [], h => by simp at h
+  | (k, t) :: ps, a :: as, h => by
+    have := bindLoop_eq_zip ps as (by simpa using h)
+    simp [bindLoop, this]
+
+theorem bindLoop_none : ∀ (ps : List (String × FType)) (args : List V), args.length < ps.length →
+    bindLoop o ps args = none
+  | [], _, h => by simp at h
+  | _ :: _, [], _ => by simp [bindLoop]
+  | (k, t) :: ps, a :: as, h => by
+    have := bindLoop_none ps as (by simpa using h)
+    simp [bindLoop, this]
+
+/-- An invocation binds its arguments exactly when there are as many arguments as parameters (otherwise the
+result is null), and then parameter `i` is bound to argument `i` coerced to the type of parameter `i` — whatever
+the types of the other parameters are. -/
+theorem bindPositional_spec (ps : List (String × FType)) (args : List V) :
+    bindPositional o ps args =
+      if args.length = ps.length then some (List.zipWith (fun p a => (p.1, o.coerced p.2 a)) ps args)
+      else none := by
+  unfold bindPositional
+  by_cases h1 : args.length > ps.length
+  · rw [if_pos h1, if_neg (by omega)]
+  · rw [if_neg h1]
+    by_cases h2 : args.length = ps.length
+    · rw [if_pos h2]; exact bindLoop_eq_zip o ps args (by omega)
+    · rw [if_neg h2]; exact bindLoop_none o ps args (by omega)
+
+/-- Every bound argument conforms to the declared type of the parameter it is bound to (null conforms to every
+type): the body of a function never sees a value outside the declared types. -/
+theorem bindPositional_conforms (l : Laws o) (ps : List (String × FType)) (args : List V)
+    (bs : List (String × V)) (h : bindPositional o ps args = some bs) :
+    List.Forall₂ (fun p b => b.1 = p.1 ∧ conf (o.typeOf b.2) p.2 = true) ps bs := by
+  rw [bindPositional_spec] at h
+  split at h
+  · rename_i hl
+    cases h
+    induction ps generalizing args with
+    | nil => cases args <;> simp_all
+    | cons p ps ih =>
+      cases args with
+      | nil => simp at hl
+      | cons a as =>
+        simp only [List.zipWith_cons_cons]
+        exact List.Forall₂.cons ⟨rfl, coerced_conforms o l _ _⟩ (ih as (by simpa using hl))
+  · cases h
+
+/-- `sort` gives the two items under comparison to the ordering function as an invocation with these two
+arguments does: the first coerced to the type of the first parameter, the second to the type of the SECOND. -/
+theorem sort_binds_as_invocation (p q : String × FType) (x y : V) :
+    bindPositional o [p, q] [x, y] = some (sortBindings o p q x y) := by
+  rw [bindPositional_spec]; rfl
+
+theorem sortBindings_conform (l : Laws o) (p q : String × FType) (x y : V) :
+    List.Forall₂ (fun p b => b.1 = p.1 ∧ conf (o.typeOf b.2) p.2 = true) [p, q] (sortBindings o p q x y) :=
+  bindPositional_conforms o l _ _ _ (sort_binds_as_invocation o p q x y)
+
+/-- The value an invocation returns conforms to the declared result type or is null, and is the value of the
+body when that conforms. -/
+theorem invokeResult_conforms (l : Laws o) (rt : FType) (b : V) :
+    conf (o.typeOf (invokeResult o rt b)) rt = true ∧
+    (conf (o.typeOf b) rt = true → invokeResult o rt b = b) := by
+  refine ⟨coerced_conforms o l rt b, fun h => ?_⟩
+  unfold invokeResult coerced
+  rw [if_pos h]
+
+example : bindPositional TV.ops [("x", .list .number), ("y", .number)] [.list [.atom .number], .list [.atom .number]]
+    = some [("x", .list [.atom .number]), ("y", .atom .number)] := by
+  rw [bindPositional_spec]
+  have h1 : conf (.list .number) .number = false := by simp [conf, equiv]
+  have h2 : conf .number .number = true := conf_refl _ (by simp [FType.WF])
+  simp [coerced, TV.ops, TV.typeOf, TV.allSame, FType.beq, wrapOk, unwrapOk, single, list_covariant, h1, h2]
+
+end Dmn.ValOps
